@@ -186,7 +186,8 @@ pub fn run(args: &Args, sink: &mut Sink) {
     }
     for _ in 0..args.vol(400, 8000) {
         names.push(adversarial_name(&mut rng));
-        let j = realistic_junk(&mut rng, if rng.bool() { V1 } else { V2 });
+        let sch = if rng.bool() { V1 } else { V2 };
+        let j = realistic_junk(&mut rng, sch);
         names.push(if rng.chance(1, 3) { mutate(&mut rng, &j) } else { j });
     }
     let mut s = Stream::new("file", REQ, "chk_file", "name", "option N * option N * option N * N");
